@@ -55,6 +55,8 @@ def gen_cases(tier, seed):
         c["evaluator"] = "rbf"
         c["mix"] = "xmix"
         c["model"] = "xc1"
+        if c["df"]:
+            c["df_order"] = ["after", "before"][i % 2]
         if c["family"].startswith("v"):
             c["plan_type"] = str(rng.choice(["gaussian", "spline"]))
             c["interp"] = str(rng.choice(["onsite_direct", "onsite_spline"]))
@@ -78,7 +80,8 @@ def _scf(gen, cfg, rng_model_state, mol, model, dm0=None):
     from ciderpress.pyscf.dft import make_cider_calc
     from ciderpress.pyscf.nldf_convolutions import PySCFNLDFInitializer
     ks = dft.RKS(mol) if cfg["spin"] == "rks" else dft.UKS(mol)
-    if cfg["df"]:
+    df_after = bool(cfg["df"]) and cfg.get("df_order") == "after"
+    if cfg["df"] and not df_after:
         ks = ks.density_fit()
     ks.grids.level = cfg["level"]
     nldf_init = None
@@ -90,6 +93,9 @@ def _scf(gen, cfg, rng_model_state, mol, model, dm0=None):
             nk["interpolator_type"] = cfg["interp"]
         nldf_init = PySCFNLDFInitializer(model.settings.nldf_settings, **nk)
     ks = make_cider_calc(ks, model, nldf_init=nldf_init, **gen.MIXES[cfg["mix"]])
+    if df_after:
+        # density fitting applied to the decorated object (the order used in examples/pyscf/simple_calc.py)
+        ks = ks.density_fit()
     ks.conv_tol = 1e-11
     ks.conv_tol_grad = 1e-7
     ks.max_cycle = 80
@@ -107,7 +113,7 @@ def run_case(case, rec):
     for k in ("family", "spin", "mol", "basis", "level", "mode", "plan_type", "interp"):
         if cfg.get(k) is not None:
             rec.tag(k, cfg[k])
-    rec.tag("density_fit", cfg["df"])
+    rec.tag("density_fit", ("df-" + cfg.get("df_order", "before")) if cfg["df"] else "none")
     rec.tag("grid_response", cfg["gr"])
     mol = gen.make_mol(cfg["mol"], cfg["basis"], rng, jitter=0.04)
     mcfg = dict(cfg)
@@ -139,7 +145,7 @@ def run_case(case, rec):
     g.verbose = 0
     F = np.asarray(g.kernel())
     rec.require("forces_finite", bool(np.all(np.isfinite(F))), mechanism="gradients:nonfinite[%s]" % cfg["family"])
-    rec.tag("gradient_class", type(g).__module__.split(".")[-1] + "." + type(g).__name__)
+    rec.tag("gradient_class", type(g).__module__ + "." + type(g).__name__)
     # ML share of the XC energy
     dm = ks.make_rdm1()
     ni = ks._numint
